@@ -11,9 +11,9 @@ Variable flavour : sdk.
 (* the single operation a write request stands for *)
 Definition single (c : client) (tn : str) (r : wreq) : client * obs :=
   match r with
-  | WPut i | WBoth i _ => put_item lang_match flavour c tn i None [] []
+  | WPut i | WBoth i _ => put_item lang_match flavour c tn i None [] [] false
   | WDelete k => delete_item lang_match flavour c tn k None [] [] false
-  | WNeither => (c, ok_obs PNone [])
+  | WNeither => match c_failure c with Some f => (c, err_obs (failure_err f)) | None => (c, ok_obs PNone []) end
   end.
 
 Definition all_ok (c : client) (tn : str) (rs : list wreq) : Prop :=
@@ -24,10 +24,10 @@ Lemma batch_write_one_single c tn r :
   o_res (snd (single c tn r)) = ROk -> batch_write_one lang_match flavour c tn r = (fst (single c tn r), None).
 Proof.
   unfold batch_write_one, single. destruct r; cbn.
-  - destruct (put_item lang_match flavour c tn i None [] []) as [c' o]; cbn. now intros ->.
+  - destruct (put_item lang_match flavour c tn i None [] [] false) as [c' o]; cbn. now intros ->.
   - destruct (delete_item lang_match flavour c tn k None [] [] false) as [c' o]; cbn. now intros ->.
-  - reflexivity.
-  - destruct (put_item lang_match flavour c tn i None [] []) as [c' o]; cbn. now intros ->.
+  - destruct (c_failure c); cbn; [discriminate|reflexivity].
+  - destruct (put_item lang_match flavour c tn i None [] [] false) as [c' o]; cbn. now intros ->.
 Qed.
 
 (* when every request succeeds, the batch leaves exactly the state of the single requests applied in order,
@@ -71,22 +71,26 @@ Definition gets (c : client) (tn : str) (names : fmap str) (proj : str) (keys : 
 Definition opts_of (opts : fmap (fmap str * str)) (tn : str) : fmap str * str :=
   match lookup tn opts with Some o => o | None => ([], []) end.
 
-(* the request validation of BatchGetItem: every table entry's names and projection obey the expression rules *)
-Definition batch_get_valid (reqs : fmap (list item)) (opts : fmap (fmap str * str)) : bool :=
-  forallb (fun tk : str * list item =>
-             let '(names, proj) := opts_of opts (fst tk) in validate_expr_attrs (keys names) [] [proj]) reqs.
+(* the request validation of BatchGetItem: every table entry's names and projection obey the expression rules, and every
+   table exists; the errors of the offending entries, in request order *)
+Definition batch_get_errors (c : client) (reqs : fmap (list item)) (opts : fmap (fmap str * str)) : list errclass :=
+  flat_map (fun tk : str * list item =>
+              let '(names, proj) := opts_of opts (fst tk) in
+              if negb (validate_expr_attrs (keys names) [] [proj]) then [Validation]
+              else if mem (fst tk) (c_tables c) then [] else [NotFound]) reqs.
 
-Theorem batch_get_invalid_rejected c reqs opts :
-  c_failure c = None -> batch_get_valid reqs opts = false -> batch_get V2 c reqs opts = (c, err_obs Validation).
-Proof. intros Hf Hv. unfold batch_get. rewrite Hf. unfold batch_get_valid, opts_of in Hv. rewrite Hv. reflexivity. Qed.
+Theorem batch_get_invalid_rejected c reqs opts e es :
+  c_failure c = None -> batch_get_errors c reqs opts = e :: es ->
+  batch_get V2 c reqs opts = (c, {| o_res := RErr e; o_pay := PAlt (e :: es); o_fired := [] |}).
+Proof. intros Hf Hv. unfold batch_get. rewrite Hf. unfold batch_get_errors, opts_of in Hv. rewrite Hv. reflexivity. Qed.
 
 Theorem batch_get_is_gets c reqs opts :
-  c_failure c = None -> batch_get_valid reqs opts = true ->
+  c_failure c = None -> batch_get_errors c reqs opts = [] ->
   exists unprocessed,
     batch_get V2 c reqs opts =
     (c, ok_obs (PBatchGet (map (fun tk => (fst tk, gets c (fst tk) (fst (opts_of opts (fst tk))) (snd (opts_of opts (fst tk))) (snd tk))) reqs) unprocessed) []).
 Proof.
-  intros Hf Hv. unfold batch_get. rewrite Hf. unfold batch_get_valid, opts_of in Hv. rewrite Hv. cbn [negb]. eexists. f_equal. f_equal. f_equal.
+  intros Hf Hv. unfold batch_get. rewrite Hf. unfold batch_get_errors, opts_of in Hv. rewrite Hv. eexists. f_equal. f_equal. f_equal.
   rewrite map_map. apply map_ext. intros [tn keys]. cbn [fst snd]. unfold opts_of.
   destruct (match lookup tn opts with Some o => o | None => ([], []) end) as [names proj]. cbn [fst snd]. f_equal.
   unfold gets. rewrite flat_map_concat_map, flat_map_concat_map, map_map. f_equal. apply map_ext. intros k. cbn [fst snd].
